@@ -1,6 +1,6 @@
 (* C09 - automatic language detection never guesses; tokens and statuses follow one rule. *)
 From PS Require Import Base StrDefs ApiDefs SpecDefs SpecApi StrProofs LangData ApiLemmas RefineProofs ApiTheorems.
-From PS Require Import CTieLang CTieStr.
+From PS Require Import LangDefs CTieLang CTieStr CTiePhrase.
 From PS.Gen Require CFuns.
 From PS.Gen Require Import Consts Langs.
 Local Open Scope N_scope.
@@ -89,3 +89,27 @@ Theorem C09_code_tie_lazy : forall sgn (nf : transform) (D : list Z -> list Z * 
     else Some (zs content ++ 0%Z :: skipn (S (length content)) norm0, Z.of_N size).
 Proof. exact tie_nfkd_lazy_mirror. Qed.
 Print Assumptions C09_code_tie_lazy.
+
+(* ---- the tie to the code: the language loop of lang.c as TRANSLATED from /repo's current source on this
+   run (Gen/CFuns.v: both loops fuelled; break, continue and the early return for MULT_LANG as flags of
+   the loop state; lang_search an outside function `ext` that answers as the mirror search does) gives,
+   for EVERY sixteen tokens: OK with the indices of the one language that recognises them all (and its
+   registry position through lang_out unless that is NULL), ERR_LANG with nothing written when none
+   does, ERR_MULT_LANG as soon as a second one does - exactly LangDefs.phrase_decode *)
+Theorem C09_code_tie_auto : forall sgn ext ws io0 lo lo0 fuel,
+  (forall li L w, nth_error langs li = Some L -> ext (Z.of_nat li) (zs w) = enc (lang_search sgn L w)) ->
+  length ws = 16%nat -> length io0 = 16%nat -> (18 <= fuel)%nat ->
+  Res io0 lo lo0 (phrase_decode sgn langs ws) (CFuns.polyseed_phrase_decode fuel ext (map zs ws) io0 lo lo0).
+Proof. exact tie_phrase_decode_langs. Qed.
+Print Assumptions C09_code_tie_auto.
+
+Theorem C09_code_tie_explicit : forall sgn ext li L ws io0 fuel,
+  (forall li L w, nth_error langs li = Some L -> ext (Z.of_nat li) (zs w) = enc (lang_search sgn L w)) ->
+  nth_error langs li = Some L -> length ws = 16%nat -> length io0 = 16%nat -> (18 <= fuel)%nat ->
+  exists io, CFuns.polyseed_phrase_decode_explicit fuel ext (map zs ws) (Z.of_nat li) io0 =
+    match decode_words sgn L ws with
+    | Some (Some js) => Some (map Z.of_N js, 0%Z)
+    | _ => Some (io, 2%Z)
+    end.
+Proof. exact tie_phrase_decode_explicit_langs. Qed.
+Print Assumptions C09_code_tie_explicit.
